@@ -101,6 +101,20 @@ def _infallible_widening(F, t):
         str(t[1]) == "core::convert::num::ptr_try_from_impls::<impl core::convert::TryFrom<u32> for usize>::try_from" and (F.size_of("usize") or 0) >= 4
 
 
+def _exact_array_try_from(t):
+    """t is `<[u8; N]>::try_from(s: &[u8])` for a slice whose length is the constant N in the linear form (a sub-slice / the
+    payload of `get(a..a+N)`)"""
+    if not (isinstance(t, tuple) and len(t) > 2 and t[0] == "call" and len(t[2]) == 1 and "core::array::<impl core::convert::TryFrom<&[u8]> for [u8; " in str(t[1])):
+        return False
+    try:
+        n = int(str(t[1]).split("for [u8; ")[1].split("]")[0])
+        from . import guard as G_
+        l = G_.lin(("len", G_.strip(t[2][0])))
+        return l.is_const() and l.c == n
+    except Exception:
+        return False
+
+
 _STD_VARIANT_DISCR = {("core::option::Option", "None"): 0, ("core::option::Option", "Some"): 1,
                       ("core::result::Result", "Ok"): 0, ("core::result::Result", "Err"): 1}
 
@@ -722,6 +736,8 @@ class TB:
                     return ("ite", pv[1], C(da), C(db))
             if _infallible_widening(self.F, pv):
                 return C(0)          # usize::try_from(u32) is Ok on a target whose usize has 32 bits or more
+            if _exact_array_try_from(pv):
+                return C(0)          # <[u8; N]>::try_from(s) is Ok when s has exactly N bytes (std contract)
             if pv[0] == "aggr" and pv[1][0] == "adt" and len(pv[1]) > 2 and (pv[1][1], pv[1][2]) in _STD_VARIANT_DISCR:
                 return C(_STD_VARIANT_DISCR[(pv[1][1], pv[1][2])])
             return ("discr", pv)
@@ -1109,6 +1125,9 @@ def std_summary(tb, path, upath, fr, args):
                 (st, ("ptrop", "add", st, ("len", args[0]), es if es is not None else ("sizeof", g[0] if g else "?"))))
     if path in ("core::str::<impl str>::as_bytes",):
         return args[0]
+    if path in ("<core::ptr::non_null::NonNull<T> as core::convert::From<&T>>::from", "<core::ptr::non_null::NonNull<T> as core::convert::From<&mut T>>::from",
+                "core::ptr::non_null::NonNull::<T>::from_ref", "core::ptr::non_null::NonNull::<T>::from_mut", "core::ptr::from_ref", "core::ptr::from_mut"):
+        return args[0]          # the pointer to the referent (same address)
     if path in ("core::ptr::const_ptr::<impl *const T>::cast", "core::ptr::mut_ptr::<impl *mut T>::cast",
                 "core::ptr::const_ptr::<impl *const T>::cast_mut", "core::ptr::mut_ptr::<impl *mut T>::cast_const",
                 "core::ptr::non_null::NonNull::<T>::as_ptr", "core::ptr::non_null::NonNull::<T>::cast",
